@@ -22,7 +22,15 @@ pub(crate) fn add_unknown_eq<W, R, T>(
 
         Ok(XFunctionFactoryOutput::from_native(
             XFuncSpec::new(&[&X_UNKNOWN, &X_UNKNOWN], X_BOOL.clone()).short_circuit_overloads(),
-            move |_args, _ns, _tca, rt| xerr(ManagedXError::new("unknown eq applied", rt)?),
+            move |args, ns, _tca, rt| {
+                // an unknown-typed argument is an error value or an empty container: an error propagates as itself
+                for arg in args {
+                    if let Err(e) = ns.eval(arg, rt.clone(), false)?.unwrap_value() {
+                        return xerr(e);
+                    }
+                }
+                xerr(ManagedXError::new("unknown eq applied", rt)?)
+            },
         ))
     })
 }
@@ -43,7 +51,15 @@ pub(crate) fn add_unknown_to_str<W, R, T>(
 
         Ok(XFunctionFactoryOutput::from_native(
             XFuncSpec::new(&[&X_UNKNOWN], X_STRING.clone()).short_circuit_overloads(),
-            move |_args, _ns, _tca, rt| xerr(ManagedXError::new("unknown to_str applied", rt)?),
+            move |args, ns, _tca, rt| {
+                // an unknown-typed argument is an error value or an empty container: an error propagates as itself
+                for arg in args {
+                    if let Err(e) = ns.eval(arg, rt.clone(), false)?.unwrap_value() {
+                        return xerr(e);
+                    }
+                }
+                xerr(ManagedXError::new("unknown to_str applied", rt)?)
+            },
         ))
     })
 }
@@ -64,7 +80,15 @@ pub(crate) fn add_unknown_hash<W, R, T>(
 
         Ok(XFunctionFactoryOutput::from_native(
             XFuncSpec::new(&[&X_UNKNOWN], X_STRING.clone()).short_circuit_overloads(),
-            move |_args, _ns, _tca, rt| xerr(ManagedXError::new("unknown hash applied", rt)?),
+            move |args, ns, _tca, rt| {
+                // an unknown-typed argument is an error value or an empty container: an error propagates as itself
+                for arg in args {
+                    if let Err(e) = ns.eval(arg, rt.clone(), false)?.unwrap_value() {
+                        return xerr(e);
+                    }
+                }
+                xerr(ManagedXError::new("unknown hash applied", rt)?)
+            },
         ))
     })
 }
